@@ -1,0 +1,11 @@
+//go:build !verif
+
+package gchan
+
+import "context"
+
+// VerifPoint is a named scheduling point for the verification harness.
+// Without the verif build tag it does nothing.
+func VerifPoint(context.Context, string) {}
+
+func verifPoint(context.Context, string, string) {}
